@@ -56,6 +56,26 @@ func main() {
 		verifDir = d
 	}
 	switch os.Args[1] {
+	case "funcs":
+		p, _, err := loadAll("/repo")
+		if err != nil {
+			fmt.Fprintln(os.Stderr, err)
+			os.Exit(2)
+		}
+		var ks []string
+		for k, f := range p.Funcs {
+			if len(f.Blocks) > 0 && !strings.Contains(k, "Mock") && !strings.Contains(k, "easyjson") {
+				n := 0
+				for _, b := range f.Blocks {
+					if isLoopHead(b) {
+						n++
+					}
+				}
+				ks = append(ks, fmt.Sprintf("%s  blocks=%d loops=%d", k, len(f.Blocks), n))
+			}
+		}
+		sort.Strings(ks)
+		fmt.Println(strings.Join(ks, "\n"))
 	case "unit":
 		cmdUnit(os.Args[2:])
 	case "check":
@@ -97,6 +117,17 @@ func cmdUnit(args []string) {
 		ex := NewExecutor(p, s)
 		ex.VerifyUnit(key, spec)
 		Discharge(ex.Obls, SolveConfig{QuickS: 5, SlowS: 20, Workers: 16, KeepDir: *keep})
+		groups := map[string]bool{}
+		for _, o := range ex.Obls {
+			if o.Group != "" && o.Status == "discharged" {
+				groups[o.Group] = true
+			}
+		}
+		for _, o := range ex.Obls {
+			if o.Group != "" && groups[o.Group] {
+				o.Status = "discharged"
+			}
+		}
 		for _, o := range ex.Obls {
 			fmt.Printf("%-10s %-12s %5dms %s\n", o.Status, o.Solver, o.Ms, o.Name)
 			if o.Status != "discharged" {
